@@ -254,6 +254,21 @@ def rule_r5(ctx):
         # {classify(sock) for sock in sockets}: the chain lives in a helper of the class
         for comp in [x for x in ast.walk(cs.node) if isinstance(x, (ast.SetComp, ast.ListComp, ast.GeneratorExp)) and len(x.generators) == 1]:
             e = comp.elt
+            if isinstance(e, ast.IfExp) and isinstance(comp.generators[0].target, ast.Name) and not comp.generators[0].ifs:
+                # 'inet' if <t1> else 'unix' if <t2> else 'unsupported'
+                arms = []
+                cur = e
+                okc = True
+                while isinstance(cur, ast.IfExp):
+                    if not (isinstance(cur.body, ast.Constant) and isinstance(cur.body.value, str)):
+                        okc = False
+                        break
+                    arms.append((cur.test, cur.body.value))
+                    cur = cur.orelse
+                if okc and isinstance(cur, ast.Constant) and isinstance(cur.value, str):
+                    arms.append((None, cur.value))
+                    chain, loopvar = arms, comp.generators[0].target.id
+                    break
             if isinstance(e, ast.Call) and isinstance(e.func, ast.Attribute) and len(e.args) == 1 and isinstance(comp.generators[0].target, ast.Name) \
                     and dotted(e.args[0]) == comp.generators[0].target.id and cs.cls is not None:
                 h = cs.cls.lookup(e.func.attr)
